@@ -189,6 +189,10 @@ def ob_hidden(l, pattern, hslot, step, shape, omit_all):
     res = run_paths(W, once)
     tag = "%s:%s:slot%d:%s:omit=%d" % (step, ",".join(pattern), hslot, ",".join(shape), omit_all)
     for path, (got, slots) in res:
+        if sorted(slots) != sorted(nfree):
+            raise Violation("hidden-list:" + tag, "%s: the resulting key lists the free slots %r, the slots still free after this step are %r (a slot the list hides, "
+                            "explicitly or through omit-all, can still be filled in; or a free slot was lost)" % (step, sorted(slots), sorted(nfree)),
+                            {"l": l, "pattern": list(pattern), "list": list(shape), "step": step, "omit_all": omit_all})
         if hslot in slots:
             raise Violation("hidden-reappears:" + tag, "%s: the hidden slot %d is listed as free in the resulting key" % (step, hslot),
                             {"l": l, "pattern": list(pattern), "list": list(shape), "step": step})
